@@ -1132,6 +1132,42 @@ func indices(n int) []int {
 }
 
 func (g *G) printStmt() []ts.Stmt {
+	// len(a), f(.. a ..), len(a) in ONE statement: the function may grow a (slices are references), so the second
+	// length must be read again, not remembered
+	if g.cfg.Slices && g.pure == 0 && g.chance("len-call-len", 25) {
+		type cand struct {
+			f *funcInfo
+			i int
+			v *varInfo
+		}
+		cs := []cand{}
+		for _, f := range g.funcs {
+			if f == g.cur || f.Tracer || len(f.Rets) > 1 {
+				continue
+			}
+			for i, p := range f.Params {
+				if !p.Ty.IsSlice() {
+					continue
+				}
+				for _, v := range g.allVars() {
+					if v.Ty == p.Ty {
+						cs = append(cs, cand{f, i, v})
+					}
+				}
+			}
+		}
+		if len(cs) > 0 {
+			c := cs[g.intn("lcl", 0, len(cs)-1)]
+			call := g.callExpr(c.f, 1)
+			call.Args[c.i] = ts.VarRef{Name: c.v.Name, Ty: c.v.Ty}
+			l := ts.Len{X: ts.VarRef{Name: c.v.Name, Ty: c.v.Ty}}
+			g.tag("len-call-len")
+			if len(c.f.Rets) == 0 {
+				return []ts.Stmt{ts.Print{Args: []ts.Expr{l}}, ts.ExprStmt{E: call}, ts.Print{Args: []ts.Expr{l}}}
+			}
+			return []ts.Stmt{ts.Print{Args: []ts.Expr{l, call, l}}}
+		}
+	}
 	n := g.pick("nprint", 5, 45, 30, 15, 5)
 	p := ts.Print{}
 	for i := 0; i < n; i++ {
@@ -1758,6 +1794,15 @@ func (g *G) funcDef() ts.Stmt {
 	// a function may be called from inside a loop: keep half of the loop budget for its own loops
 	g.loopFactor = 2
 	body := []ts.Stmt{}
+	// a function that receives a slice often appends to it: the caller sees the growth (slices are references)
+	for _, pa := range fi.Params {
+		if pa.Ty.IsSlice() && g.chance("append-to-parameter", 35) {
+			ref := ts.VarRef{Name: pa.Name, Ty: pa.Ty}
+			body = append(body, ts.SetIndex{Name: pa.Name, Elem: pa.Ty.Elem(), I: ts.Len{X: ref}, Val: g.expr(pa.Ty.Elem(), 1)})
+			g.tag("append-to-parameter")
+			break
+		}
+	}
 	n := g.intn("fbody", 1, 5)
 	maBefore := g.Tags["multi-assign"] + g.Tags["swap"] + g.Tags["multi-assign-inc-and-itoa"]
 	for i := 0; i < n && g.budget > 0; i++ {
